@@ -351,6 +351,10 @@ HAND = [
     [dict(name="G0", acl="a *\n    x", program=[["mb", ["a b", ["x", "y"]], [["ym", ["p", "q"]]]]])],
     [dict(name="G0", acl="a *\n    x *\n        ~", program=[["mb", ["a b", ["x", "y"]], [["ym", ["p", "q"]]]]])],
     [dict(name="G0", acl="a\n    x\n    ~ %global", program=[["bif", ["a", None], "default", [["y", "a c"], ["ym", ["a b", "  x y", "  mtu 9000", "a"]]]]])],
+    # block_if's default condition looks for None / "" only: a falsy token such as the integer 0 opens the block (seeded C10_m7)
+    [dict(name="G0", acl="unit *\n    family ~", program=[["bif", ["unit", 0], "default", [["y", "family inet"]]]])],
+    [dict(name="G0", acl="interface *\n    unit *\n        family ~\n    mtu *",
+          program=[["b", ["interface x"], [["bif", ["unit", 0], "default", [["y", "family inet"]]], ["bif", ["mtu", 0, ""], "default", [["y", "z"]]]]]])],
     [dict(name="G0", acl="interface *", program=[["y", "undo interface x"]])],
 ] + _aclless_hand()
 
